@@ -3870,6 +3870,69 @@ def c20_insert_row_limit_group(mir, ctx):
     return [g]
 
 
+def c15_writers_flush_group(mir, ctx):
+    """Table::write_rows, StringPool::write_pool / write_data, PropertySet::write with their loops unrolled (<= 2 rows /
+    entries / properties): every operation on the caller's writer `W` is a fallible event (a symbolic fault schedule); any
+    wrapper the function puts around `W` is crate code and is executed, not trusted."""
+    from .mir_protocol import _confirm
+    targets = [("write_rows", r"table::.*::write_rows$"), ("write_pool", r"stringpool::.*::write_pool$"), ("write_data", r"stringpool::.*::write_data$"),
+               ("PropertySet::write", None)]
+    g = Group("writers_flush", ["table::Table::write_rows", "stringpool::StringPool::write_pool", "stringpool::StringPool::write_data", "propset::PropertySet::write"],
+              confirm=_confirm,
+              note="under every schedule of failing operations on the caller's writer W (<= 2 rows / entries / properties): the function returns Ok only if "
+                   "every operation it issued on W returned Ok, the last of them is W's own flush(), and nothing is written to W after that flush -- "
+                   "so bytes still buffered in a by-value stream when the function returns Ok have been flushed through to the medium")
+    total = 0
+    for label, rx in targets:
+        if rx is None:
+            cands = [f for n, fs in mir.fns.items() for f in fs if n.endswith("::write") and f.args and "PropertySet" in f.args[0][1] and len(f.args) == 2]
+            if len(cands) != 1:
+                raise EncodingError("PropertySet::write not found uniquely (%d)" % len(cands))
+            fn = cands[0]
+        else:
+            fn = mir.find(rx)
+        lens = {}
+        it_models, what_of, coll = iter_models(ctx, lens, consistent=True)
+
+        def m_w(ex, callee, args, pc, events, label=label):
+            op = re.sub(r"::<.*$", "", callee).split("::")[-1]
+            i = sum(1 for e in events if e[0] == "W")
+            return [(pc, events + [("W", op, "Ok")], EnumV(variant=0, fields=[OpaqueV("n") if op == "write" else TupleV([])])),
+                    (pc, events + [("W", op, "Err")], EnumV(variant=1, fields=[OpaqueV("io::Error@%s#%d" % (op, i))]))]
+
+        models = [(r"^<(&mut )?W as (std::io::)?(Write|Read|Seek)>::by_ref$", lambda ex, callee, args, pc, events: [(pc, events, ex.load(args[0]))]),
+                  (r"^<W as (std::io::)?Write>::\w+$|^<W as WriteBytesExt>::\w+(::<.*>)?$|^<&mut W as (std::io::)?Write>::\w+$|^<&mut W as WriteBytesExt>::\w+(::<.*>)?$", m_w),
+                  (r"CodePage::encode$", lambda ex, callee, args, pc, events: [(pc, events, OpaqueV("bytes"))]),
+                  (r"BTreeMap::<u32, PropertyValue>::(len|iter|keys|values)$", None)] + it_models
+        models = [(rx_, f) for rx_, f in models if f is not None]
+        ex = M.Exec(mir, ctx, models=models, havoc_unknown=True, max_paths=400000)
+        ex.max_revisit = deeper(3)
+        ex.no_inline = [r"ColumnType::", r"Column::", r"Timestamp::", r"CodePage::", r"Value", r"StringRef", r"closure"]
+        psrc = open(os.path.join(REPO, "src/internal/propset.rs")).read()
+        ex.enum_index = {v: i for i, v in enumerate(enum_variants(psrc, "PropertyValue"))}
+        args = [RefV(OpaqueV("self")), OpaqueV("writer")] + ([OpaqueV("rows")] if label == "write_rows" else [])
+        outs = ex.run(fn, args)
+        nok = 0
+        for k, o in enumerate(outs):
+            if o.kind != "return" or not (isinstance(o.value, EnumV) and o.value.variant in (0, "Ok")):
+                continue
+            nok += 1
+            ws = [e for e in o.events if e[0] == "W"]
+            errs = [e for e in ws if e[2] == "Err"]
+            if errs:
+                g.queries.append(Query("%s_swallowed_%d" % (label, len(g.queries)), o.pc, "unsat", note="%s returns Ok although %s on the caller's writer failed" % (label, errs[0][1])))
+            if not ws or ws[-1][1] != "flush":
+                g.queries.append(Query("%s_noflush_%d" % (label, len(g.queries)), o.pc, "unsat",
+                                       note="%s returns Ok without a final flush() of the caller's writer (last operation on it: %s) -- bytes still buffered in the stream are lost if its drop-time flush fails" % (label, ws[-1][1] if ws else "none")))
+            if len(g.witness) < 40:
+                g.witness.append(Query("w_%s_%d" % (label, k), o.pc, "sat"))
+        if nok < 1:
+            raise EncodingError("%s: no Ok-returning path" % label)
+        total += nok
+    g.queries.append(Query("paths", ["false"], "unsat", note="%d Ok-returning paths examined" % total))
+    return [g]
+
+
 def c05_all(mir, ctx):
     return c05_update_group(mir, ctx) + c05_insert_group(mir, ctx) + c05_builder_group(mir, ctx)
 
@@ -3997,7 +4060,7 @@ def _proto(which):
 
 BUILDERS = {"C18": c18_groups, "C19": c19_groups, "C14": (lambda mir, ctx: c14_groups(mir, ctx) + c14_chunk_loop_group(mir, ctx)), "C20": c20_all, "C09": c20_groups,
             "C01": _proto({"mutators", "finish", "close"}), "C10": (lambda mir, ctx: _proto({"mutators", "finish"})(mir, ctx) + c10_set_codepage_group(mir, ctx) + c10_size_law_group(mir, ctx)),
-            "C15": _proto({"finish", "close"}), "C16": (lambda mir, ctx: _proto({"readonly"})(mir, ctx) + c16_loaded_pool_group(mir, ctx)), "C08": (lambda mir, ctx: c08_all(mir, ctx) + _proto({"finish"})(mir, ctx)), "C04": (lambda mir, ctx: _proto({"reject"})(mir, ctx) + c04_create_table_group(mir, ctx) + c05_update_group(mir, ctx) + c05_insert_group(mir, ctx)), "C11": c11_all, "C07": c07_insert_gate_group, "C12": c12_all, "C05": c05_all, "C13": c13_constructor_group, "C03": c03_all, "C06": c06_enum_gate_group}
+            "C15": (lambda mir, ctx: _proto({"finish", "close"})(mir, ctx) + c15_writers_flush_group(mir, ctx)), "C16": (lambda mir, ctx: _proto({"readonly"})(mir, ctx) + c16_loaded_pool_group(mir, ctx)), "C08": (lambda mir, ctx: c08_all(mir, ctx) + _proto({"finish"})(mir, ctx)), "C04": (lambda mir, ctx: _proto({"reject"})(mir, ctx) + c04_create_table_group(mir, ctx) + c05_update_group(mir, ctx) + c05_insert_group(mir, ctx)), "C11": c11_all, "C07": c07_insert_gate_group, "C12": c12_all, "C05": c05_all, "C13": c13_constructor_group, "C03": c03_all, "C06": c06_enum_gate_group}
 
 
 def native_confirm_c18(vals, work):
@@ -4011,8 +4074,24 @@ def deeper(n, groups=None):
     return n + TIER["extra"]
 
 
+def load_enum_indices():
+    """declaration index of every variant of every enum in /repo/src/internal (for discriminants of named variants)"""
+    M.ENUM_INDEX_Q.clear()
+    d = os.path.join(REPO, "src/internal")
+    for fn_ in sorted(os.listdir(d)):
+        if not fn_.endswith(".rs"):
+            continue
+        src = open(os.path.join(d, fn_)).read()
+        for mm in re.finditer(r"enum (\w+) \{(.*?)\n\}", src, re.S):
+            body = re.sub(r"//[^\n]*", "", mm.group(2))
+            vs = re.findall(r"^\s*(\w+)\s*(?:\(.*\)|\{[^}]*\})?\s*(?:=\s*[^,]+)?,?\s*$", body, re.M)
+            for i, v in enumerate(vs):
+                M.ENUM_INDEX_Q["%s::%s" % (mm.group(1), v)] = i
+
+
 def run_property(pid, tier, work, known_by_id, replay_dir):
     t0 = time.time()
+    load_enum_indices()
     TIER["extra"] = 1 if tier == "thorough" else 0
     mir, mir_path = _load_mir(work)
     dump_s = time.time() - t0
